@@ -178,6 +178,15 @@ CHECKS = {
         note="Partial: binding, lookup and overload fallback are end-to-end only. Fix: commits: union-subset acceptance, inherited class methods of configured classes, overloads on union receivers.",
         technique="Lean 4 proof (case analysis over the matching model) + differential stream over a hook + end-to-end oracle comparison on generated configurations",
     ),
+    "C09": dict(
+        category="proof",
+        text="Resolution core proved in Lean on the models of calculateExecutionType and of the union normalisation (AppendVariant, UnifyVariants, MakeUnifiedT, MergeHash, IsEqualObject, TypeToString): a plain declared return type is the type of the call whatever receiver and arguments are; Self is the receiver; Argument is nil / the argument / the array of arguments; Unify the unified element type; OptionalUnify the element types plus NilClass; "
+             "resolving ANY return type leaves the receiver unchanged (mutual induction; false of the Go code before three fix: commits); appending a scalar to a union adds it iff no variant has its tag and class; an array literal of n+1 elements of one scalar type unifies to that type. The models are tied by four differential streams over hooks on nested arrays / hashes / unions (the receiver is compared after every ret op). "
+             "Literals, assignment, indexing, literal-key lookup, push/<< growth and the printers are checked end-to-end: generated straight-line programs over the shipped configuration and a random configuration with computed return kinds, every dbtp row and -i bind hint against a reference model.",
+        design="DESIGN.md §4 C09",
+        note="Partial: the evaluators around the resolution core (bind, square_bracket, hash, array strategies, printers) are end-to-end only; BLOCK / BlockResultArray / Owner returns are not modelled; recursion in the model is fuel-bounded (fuel 40 in the drivers).",
+        technique="Lean 4 proof (mutual structural recursion, induction on fuel) + four differential streams over hooks + end-to-end reference-model comparison",
+    ),
     "C17": dict(
         category="proof",
         text="Scope core on the Go-map model of TFrame: Lean proves for EVERY sequence of writes performed inside a block that a key absent from the entry snapshot (and not written back) is absent after the block, that outer variables keep what the block assigned to them, that a shadowed variable gets its saved value back (distinct restore keys), "
